@@ -55,6 +55,12 @@ func RuleEnv() []*model.TypeDef {
 	}
 }
 
+// RuleEnums is the enum rule environment of the C08 schemas: @e lists the example of every
+// scalar kind.
+func RuleEnums() []*model.EnumDef {
+	return []*model.EnumDef{{Name: "@e", Values: []string{`"a@b.co"`, "5", "1.5", "true", "null", "-1.3", "0", `"zz"`}}}
+}
+
 func typeForKind(n *model.Node) string {
 	switch n.Kind {
 	case model.KString:
@@ -132,7 +138,8 @@ func RuleVariants(name string, n *model.Node) []*model.Rule {
 			model.RStr("type", "enum"), model.RStr("type", "mixed"), model.RStr("type", typeForKind(n)), model.RStr("type", "email")}
 	case "enum":
 		if n.IsScalar() {
-			return []*model.Rule{model.REnum(n.Lit, `"zz"`)}
+			// the list written in place, and the same list by the name of a rule (RuleEnums)
+			return []*model.Rule{model.REnum(n.Lit, `"zz"`), model.REnumRef("@e")}
 		}
 		return []*model.Rule{model.REnum("1", `"zz"`)}
 	case "or":
